@@ -3,7 +3,7 @@
     self-redirect skip, proxy/http_proxy.go redirect branch).  Statements, [exact],
     [Print Assumptions] only. *)
 From Coq Require Import String List NArith ZArith.
-From Fabio Require Import Lib.Outcome Lib.Bytes Model.Redirect Model.RedirectSpec Model.RedirectTag Proofs.Redirect Proofs.RedirectTag.
+From Fabio Require Import Lib.Outcome Lib.Bytes Model.Redirect Model.RedirectSpec Model.RedirectTag Model.RedirectProto Proofs.Redirect Proofs.RedirectTag Proofs.RedirectProto.
 Import ListNotations.
 Local Open Scope N_scope.
 
@@ -331,3 +331,91 @@ Theorem C13_consul_tag_nonvacuous :
   /\ tag_target 0 ex_prefix (bs "urlprefix-/plain") = None.
 Proof. exact consul_tag_nonvacuous. Qed.
 Print Assumptions C13_consul_tag_nonvacuous.
+
+(* THE SCHEME OF THE SELF-REDIRECT TEST, over every combination of header fields and connection
+   (round 6; route/table.go:459-466).  The request is given by its header fields AS SENT (any
+   number of lines, any spelling of the names).  Specification side (Model/RedirectProto.v,
+   written on "the fields of a name in the order sent", not on http.Header.Get): [said_x] -
+   X-Forwarded-Proto absent (or empty) / a value; [said_f] - Forwarded absent / without a proto
+   parameter / with one; the connection; and the decision table [own_scheme_said]: the scheme a
+   proxy in front reports in X-Forwarded-Proto, without it the scheme of the connection; a
+   Forwarded header, with or without proto, never takes that away.
+   For EVERY list of header fields the scheme Lookup derives is the one of the table ... *)
+Theorem C13_scheme_all_combinations : forall hs tls,
+  lookup_proto hs tls = own_scheme_said (said_x hs) (said_f hs) tls.
+Proof. exact proto_all_combinations. Qed.
+Print Assumptions C13_scheme_all_combinations.
+(* ... hence the clause "a redirect that would point back at the request's own scheme, host and
+   path is skipped in favour of the next matching host" for every such request: the answering
+   host is the first one whose route is not a redirect to <own scheme>://<host><path>
+   ([ref_lookup_own], the reference loop for the table's scheme), and the whole answer (status,
+   Location, who is contacted) is the reference answer *)
+Theorem C13_self_skip_all_combinations : forall hs host path rawpath query tls cands,
+  chosen_target (lookup (request_of hs host path rawpath query tls) cands)
+  = ref_lookup_own (own_scheme_said (said_x hs) (said_f hs) tls) (said_request hs host path rawpath query tls) cands.
+Proof. exact self_skip_all_combinations. Qed.
+Print Assumptions C13_self_skip_all_combinations.
+Theorem C13_answer_all_combinations : forall hs host path rawpath query tls cands,
+  codes_ok cands = true ->
+  handle_full hs host path rawpath query tls cands
+  = ref_answer_own (own_scheme_said (said_x hs) (said_f hs) tls) (said_request hs host path rawpath query tls) cands.
+Proof. exact answer_all_combinations. Qed.
+Print Assumptions C13_answer_all_combinations.
+(* a Forwarded field - wherever it stands among the fields, however its name is spelled, whatever
+   it says - does not change the answer *)
+Theorem C13_forwarded_irrelevant : forall l1 k v l2 host path rawpath query tls cands,
+  same_name k h_forwarded = true ->
+  handle_full (l1 ++ (k, v) :: l2) host path rawpath query tls cands
+  = handle_full (l1 ++ l2) host path rawpath query tls cands.
+Proof. exact forwarded_irrelevant. Qed.
+Print Assumptions C13_forwarded_irrelevant.
+(* the two directions for one candidate: a redirect to <own scheme>://<host><path> is passed
+   over (the request reporting its scheme in X-Forwarded-Proto: whatever Forwarded field it
+   carries besides and whatever the connection is); a redirect to another scheme is answered
+   with its 3xx and no upstream call *)
+Theorem C13_pointing_back_skipped : forall hs host path rawpath query tls t rest,
+  is_redirect t = true ->
+  back_to (own_scheme_said (said_x hs) (said_f hs) tls) host path
+          (build_redirect_url t (said_request hs host path rawpath query tls)) = true ->
+  handle_full hs host path rawpath query tls (Some t :: rest) = handle_full hs host path rawpath query tls rest.
+Proof. exact pointing_back_skipped. Qed.
+Print Assumptions C13_pointing_back_skipped.
+Theorem C13_reported_scheme_skipped : forall hs host path rawpath query tls t rest s,
+  said_x hs = XSays s -> is_redirect t = true ->
+  back_to s host path (build_redirect_url t (said_request hs host path rawpath query tls)) = true ->
+  handle_full hs host path rawpath query tls (Some t :: rest) = handle_full hs host path rawpath query tls rest.
+Proof. exact reported_scheme_skipped. Qed.
+Print Assumptions C13_reported_scheme_skipped.
+Theorem C13_other_scheme_answered : forall hs host path rawpath query tls t rest,
+  is_redirect t = true -> code_ok (t_code t) = true ->
+  u_scheme (build_redirect_url t (said_request hs host path rawpath query tls))
+    <> own_scheme_said (said_x hs) (said_f hs) tls ->
+  handle_full hs host path rawpath query tls (Some t :: rest)
+  = RRedirect (t_code t) (hex_escape_non_ascii (url_string (build_redirect_url t (said_request hs host path rawpath query tls))))
+  /\ upstream_calls (handle_full hs host path rawpath query tls (Some t :: rest)) = O.
+Proof. exact other_scheme_answered. Qed.
+Print Assumptions C13_other_scheme_answered.
+(* non-vacuity: the usual pair  example.com:80/ -> https://example.com$path (301)  +  example.com/
+   -> upstream  over the whole grid of 3 x 4 x 2 combinations: the request is proxied exactly
+   when the client used https (X-Forwarded-Proto says so, or nothing is said and the connection
+   is TLS), otherwise it is sent to https; the grid's entries fall into the classes they are
+   labelled with; the load-balancer case with both headers *)
+Theorem C13_scheme_grid_nonvacuous :
+  length grid = 24%nat
+  /\ map grid_answer grid = map grid_expected grid
+  /\ map (fun i => said_x (grid_x i)) [0;1;2]%nat = [XNone; XSays s_http; XSays s_https]
+  /\ map (fun j => said_f (grid_f j)) [0;1;2;3]%nat = [FNone; FNoProto; FProto s_http; FProto s_https]
+  /\ handle_full [(bs "X-Forwarded-Proto", bs "https"); (bs "Forwarded", bs "for=203.0.113.7")]
+       (bs "example.com") (bs "/account/settings") [] [] false [Some t_to_https; Some t_web] = RProxy 1
+  /\ back_to (bs "https") (bs "example.com") (bs "/account/settings")
+       (build_redirect_url t_to_https (said_request [(bs "X-Forwarded-Proto", bs "https"); (bs "Forwarded", bs "for=203.0.113.7")]
+                                         (bs "example.com") (bs "/account/settings") [] [] false)) = true
+  /\ handle_full [(bs "Forwarded", bs "for=203.0.113.7")] (bs "example.com") (bs "/account/settings") [] [] false
+       [Some t_to_https; Some t_web] = RRedirect 301%Z (bs "https://example.com/account/settings")
+  /\ handle_full [(bs "Forwarded", bs "for=203.0.113.7;proto=https")] (bs "example.com") (bs "/account/settings") [] [] false
+       [Some t_to_https; Some t_web] = RRedirect 301%Z (bs "https://example.com/account/settings")
+  /\ said_f [(bs "forwarded", bs "for=192.0.2.43, for=198.51.100.17; Proto=https;by=10.0.0.1")] = FProto s_https
+  /\ said_f [(bs "Forwarded", bs "for=1.2.3.4; httpproto=http/1.1")] = FNoProto
+  /\ codes_ok [Some t_to_https; Some t_web] = true.
+Proof. exact grid_nonvacuous. Qed.
+Print Assumptions C13_scheme_grid_nonvacuous.
